@@ -44,7 +44,8 @@ def _inlineable(pat, c, en):
     if _EFFECTFUL.search(c):
         return False
     mut_names = {en.get(l_, n_) for l_, n_ in en.get('__mutated__', ()) if n_ != 'self'}
-    return not any(re.search(r'\b%s\b' % re.escape(m_), c) for m_ in mut_names)
+    # a mutated local named like a function (`min`, `max`) is not that function's call
+    return not any(re.search(r'(?<![\w.:])%s(?![\w(])' % re.escape(m_), c) for m_ in mut_names)
 
 
 def _assign_str(e, env):
@@ -233,6 +234,9 @@ def canon(e, env):
         if e['method'] == 'is_not_nat' and len(e['ch']) == 1:
             return 'VALID(%s)' % canon(e['ch'][0], env)
         args_ = [canon(x, env) for x in e['ch'][1:]]
+        if e['method'] in ('min', 'max') and len(args_) == 1 and callee_is(e, 'Ord::min', 'Ord::max'):
+            # `a.min(b)`, `b.min(a)`, `std::cmp::min(a, b)`: one spelling
+            return '%s(%s)' % (e['method'], ', '.join(sorted([canon(e['ch'][0], env), args_[0]])))
         if e['method'] == 'unwrap_or_else' and len(args_) == 1 and args_[0] in ('IsNone::none', '|| NULL', 'NULL'):
             return '%s.unwrap_or(NULL)' % canon(e['ch'][0], env)
         return '%s.%s(%s)' % (canon(e['ch'][0], env), e['method'], ', '.join(args_))
@@ -245,6 +249,8 @@ def canon(e, env):
             return 'NULL'
         name = canon(c, env)
         a_ = [canon(x, env) for x in e['ch'][1:]]
+        if callee_is(e, 'cmp::min', 'cmp::max') and len(a_) == 2:
+            return '%s(%s)' % (name.split('::')[-1], ', '.join(sorted(a_)))
         if e.get('callee_res') == 'AssocFn' and a_ and a_[0] in ('self', 'self.view', 'self.0') and \
                 '::' in name and name.split('::')[-1][:1].islower():
             # fully qualified call of a method on self: `Trait::m(self, x)` is `self.m(x)`
@@ -744,10 +750,20 @@ def _paths(e, env=None, conds=frozenset(), effects=()):
         t2 = decide(t)
         if t2 is not None:
             yield from _paths(c[1], en_t, conds | frozenset(t2), effects)
-        f2 = decide(f) if len(f) == 1 else f
         if t2 is None:
-            f2 = []                        # the else branch is taken unconditionally
-        if f2 is not None:
+            alts = [[]]                    # the else branch is taken unconditionally
+        elif len(t) > 1 and len(f) == 1:
+            # not (A && B && ..) as disjoint alternatives: !A | A && !B | A && B && !C ..
+            # (the rows `if A { if B {X} else {Y} } else {Y}` would produce)
+            alts = []
+            for i_ in range(len(t)):
+                alt = decide(list(t[:i_]) + [_neg(t[i_])])
+                if alt is not None:
+                    alts.append(alt)
+        else:
+            f2 = decide(f) if len(f) == 1 else f
+            alts = [f2] if f2 is not None else []
+        for f2 in alts:
             if len(c) > 2:
                 yield from _paths(c[2], env, conds | frozenset(f2), effects)
             else:
